@@ -1,0 +1,18 @@
+//go:build verif
+
+package common
+
+// Contracts for the deductive checker in /verif (comment-only; compiled only with -tags verif).
+// C05: a precompile frame that runs out of gas must be reported to the EVM as failed (vm.ErrOutOfGas), so that the frame is reverted;
+// the deferred handler must never turn an out-of-gas panic into a successful return.
+
+/*@
+const glob_vm_ErrOutOfGas error
+alias OOG github.com/cosmos/cosmos-sdk/store/types.ErrorOutOfGas
+func HandleGasError$1
+    // from the call sites (RunSetup / Run of every precompile): non-nil contract and error slot; the gas meter only counts upwards
+    requires site: contract != nil && err != nil && gas_consumed(ctx_gasmeter(ctx)) >= initialGas
+    ensures c05_oog_reported: isdyn(ret(recover, 1, 0), OOG) ==> *err == glob_vm_ErrOutOfGas && *err != nil
+    allow frame
+    maypanic
+@*/
